@@ -276,6 +276,15 @@ func (g *FnGen) processBlock(b *ssa.BasicBlock) {
 			in := g.phiIncoming(ai.phi, b, preds)
 			g.oblige("invariant-entry", fmt.Sprintf("loop%d:auto-rangeindex", li.ordinal), guard, ai.inv(in), "range index starts at -1", b.Instrs[0].Pos())
 		}
+		// type invariants of the objects known before the loop (parameters, objects allocated so far)
+		// are carried as checked loop invariants
+		tiObjs := g.typeInvObjects()
+		for n, o := range tiObjs {
+			if t := g.typeInvTerm(o, g.st); t != "" {
+				g.oblige("invariant-entry", fmt.Sprintf("loop%d:auto-typeinv#%d", li.ordinal, n+1), and(guard, not("(= "+o.T+" nil)")), t, "type invariant of "+typeInvName(o.Go)+" holds on loop entry", b.Instrs[0].Pos())
+			}
+		}
+		g.loopTypeInvObjs[b] = tiObjs
 		// 2. havoc
 		for _, k := range sortedKeys(li.mods) {
 			if k == "*" {
@@ -333,6 +342,11 @@ func (g *FnGen) processBlock(b *ssa.BasicBlock) {
 		for _, ai := range autoInv {
 			g.assume(guard, ai.inv(g.vals[ai.phi].T), "auto-rangeindex")
 		}
+		for _, o := range tiObjs {
+			if t := g.typeInvTerm(o, g.st); t != "" {
+				g.assume(and(guard, not("(= "+o.T+" nil)")), t, "auto-typeinv")
+			}
+		}
 		g.autoInvs[b] = autoInv
 		g.assumeGlobals(guard)
 	} else {
@@ -341,7 +355,19 @@ func (g *FnGen) processBlock(b *ssa.BasicBlock) {
 			if !ok {
 				break
 			}
-			g.vals[phi] = g.mkVal(g.def("phi_"+phi.Name(), g.D.sortOf(phi.Type()), g.phiIncoming(phi, b, preds)), phi.Type())
+			pv := g.mkVal(g.def("phi_"+phi.Name(), g.D.sortOf(phi.Type()), g.phiIncoming(phi, b, preds)), phi.Type())
+			if pv.S == sortRef {
+				var alts []Val
+				for _, e := range phi.Edges {
+					if ev, ok := g.vals[e]; ok {
+						alts = append(alts, ev)
+					} else if c, ok := e.(*ssa.Const); ok {
+						alts = append(alts, g.constVal(c))
+					}
+				}
+				pv.Place, pv.PlaceLost = mergePlaces(alts)
+			}
+			g.vals[phi] = pv
 		}
 	}
 
@@ -371,6 +397,11 @@ func (g *FnGen) processBlock(b *ssa.BasicBlock) {
 		}
 		for _, ai := range g.autoInvs[s] {
 			g.oblige("invariant-preserved", fmt.Sprintf("loop%d:auto-rangeindex", li.ordinal), eg, ai.inv(g.val(ai.phi.Edges[idx]).T), "range index stays below the length", token.NoPos)
+		}
+		for n, o := range g.loopTypeInvObjs[s] {
+			if t := g.typeInvTerm(o, g.st); t != "" {
+				g.oblige("invariant-preserved", fmt.Sprintf("loop%d:auto-typeinv#%d", li.ordinal, n+1), and(eg, not("(= "+o.T+" nil)")), t, "type invariant of "+typeInvName(o.Go)+" is preserved by the loop body", token.NoPos)
+			}
 		}
 		if spec == nil {
 			continue
@@ -624,6 +655,9 @@ func (g *FnGen) doAlloc(x *ssa.Alloc) {
 
 func (g *FnGen) doFieldAddr(x *ssa.FieldAddr) {
 	base := g.val(x.X)
+	if base.PlaceLost {
+		panic(unsupported{"field address through a pointer whose target differs between control-flow paths"})
+	}
 	st, s := derefStruct(x.X.Type())
 	if st == nil {
 		panic(unsupported{"FieldAddr on non-struct pointer"})
@@ -1419,11 +1453,11 @@ func (g *FnGen) noteInvWrite(addr ssa.Value, p *Place) {
 		}
 	}
 	for _, d := range r.dirty[tn] {
-		if d.T == base.T {
+		if d.v.T == base.T {
 			return
 		}
 	}
-	r.dirty[tn] = append(r.dirty[tn], base)
+	r.dirty[tn] = append(r.dirty[tn], dirtyObj{base, g.curGuard})
 }
 
 // checkTypeInvsAtReturn emits, for one return site, the invariant obligations of every object
@@ -1442,12 +1476,12 @@ func (g *FnGen) checkTypeInvsAtReturn(k int, rt retInfo) {
 			g.oblige("typeinv", fmt.Sprintf("%s:new#%d@ret%d", tn, n, k+1), and(rt.guard, a.guard), g.typeInvTerm(v, rt.st), "invariant of "+tn+" holds for the object allocated here", rt.pos)
 		}
 		for i, d := range g.dirty[tn] {
-			g.oblige("typeinv", fmt.Sprintf("%s:written#%d@ret%d", tn, i+1, k+1), and(rt.guard, not("(= "+d.T+" nil)")), g.typeInvTerm(d, rt.st), "invariant of "+tn+" is re-established for the object written here", rt.pos)
+			g.oblige("typeinv", fmt.Sprintf("%s:written#%d@ret%d", tn, i+1, k+1), and(rt.guard, d.guard, not("(= "+d.v.T+" nil)")), g.typeInvTerm(d.v, rt.st), "invariant of "+tn+" is re-established for the object written here", rt.pos)
 		}
 	}
 }
 
-func sortedTypeNames(a map[string][]ownAlloc, b map[string][]Val) []string {
+func sortedTypeNames(a map[string][]ownAlloc, b map[string][]dirtyObj) []string {
 	m := map[string]bool{}
 	for k := range a {
 		m[k] = true
@@ -1550,4 +1584,29 @@ func (g *FnGen) ensureKey(k string) {
 			}
 		}
 	}
+}
+
+// typeInvObjects lists the objects whose type invariant the current function knows about at this
+// point: parameters of a type with an invariant and the objects it has allocated so far.
+func (g *FnGen) typeInvObjects() []Val {
+	var out []Val
+	if g.parent == nil {
+		for _, p := range g.fn.Params {
+			v := g.vals[p]
+			if tn := typeInvName(v.Go); tn != "" && len(g.S.TypeInvs[tn]) > 0 {
+				out = append(out, v)
+			}
+		}
+	}
+	r := g.root()
+	for _, tn := range sortedTypeNames(r.ownAllocs, nil) {
+		t := lookupNamedType(g.P, tn)
+		if t == nil {
+			continue
+		}
+		for _, a := range r.ownAllocs[tn] {
+			out = append(out, Val{T: a.term, S: sortRef, Go: types.NewPointer(t)})
+		}
+	}
+	return out
 }
